@@ -59,6 +59,11 @@ class PathCond:
                 nb = tuple(self.reduce(e) for e in bits)
                 nv[nb] = (nv[nb] & s) if nb in nv else s
             self.vals = nv
+            # a refinement whose bits have all become constants is decided: the path is infeasible if the value is not allowed
+            for nb, s in nv.items():
+                if not s or (all(e is not None and e[0] == 0 for e in nb) and sum(e[1] << i for i, e in enumerate(nb)) not in s):
+                    self.dead = True
+                    return False
         return True
 
     def add_vals(self, bits, allowed, record=True):
@@ -72,6 +77,9 @@ class PathCond:
         if not new:
             self.dead = True
             return False
+        if all(e is not None and e[0] == 0 for e in bits) and sum(e[1] << i for i, e in enumerate(bits)) not in new:
+            self.dead = True
+            return False
         return True
 
     def add_guard(self, g):
@@ -83,7 +91,36 @@ class PathCond:
         if f[0] == "vals":
             return self.add_vals(f[1], f[2])
         self.log.append(f)
+        if f[0] == "or":
+            return self._or_consequences(f[1])
         return True
+
+    def _or_consequences(self, conjs):
+        """what every disjunct implies also holds: a linear fact present in all of them, and for value-set facts over the same
+        bits the union of the allowed sets (so a range established inside a callee on each of its paths survives the merge)"""
+        if not conjs:
+            return True
+        common_lin = None
+        per_bits = None
+        for conj in conjs:
+            lins = set((g[1], g[2]) for g in conj if g[0] == "lin")
+            common_lin = lins if common_lin is None else (common_lin & lins)
+            vb = {}
+            for g in conj:
+                if g[0] == "vals":
+                    key = tuple(self.reduce(e) for e in g[1])
+                    vb[key] = (vb[key] & g[2]) if key in vb else frozenset(g[2])
+            if per_bits is None:
+                per_bits = vb
+            else:
+                per_bits = {k: (per_bits[k] | vb[k]) for k in per_bits if k in vb}
+        ok = True
+        # recorded like any other fact: values are simplified under them, so consumers of the log must see them too
+        for m, c in sorted(common_lin or ()):
+            ok = self.add_lin(m, c, record=True) and ok
+        for bits, allowed in (per_bits or {}).items():
+            ok = self.add_vals(bits, allowed, record=True) and ok
+        return ok
 
     def lookup_vals(self, bits):
         return self.vals.get(tuple(bits))
@@ -104,7 +141,14 @@ _OPS = {"Eq": lambda x, y: x == y, "Ne": lambda x, y: x != y, "Lt": lambda x, y:
 
 
 def eval_fact(f, assign):
-    """truth of one path fact under a total assignment of the atoms it mentions; None if not evaluable"""
+    """truth of one path fact under an assignment of atoms; None if not evaluable (e.g. it mentions an atom that is not assigned)"""
+    try:
+        return _eval_fact(f, assign)
+    except KeyError:
+        return None
+
+
+def _eval_fact(f, assign):
     k = f[0]
     if k == "lin":
         return eval_bx((f[1], 0), assign) == f[2]
